@@ -66,6 +66,17 @@ def run_family(ctx, want_names=False, want_quick=True, only_ops=None, seeds=None
                             "observation variable) is one replayed edge; distinct = distinct edge records")
 
 
+def short_histories(ctx, name="exh"):
+    """EVERY history of 5 core operations on one user (MC_SimStore_exh.cfg, BFS) on one long-lived library object."""
+    res = ctx.run_tlc("MC_SimStore.tla", "MC_SimStore_exh.cfg", workers=1, timeout=900, name="simstore-exh")
+    hs = res["hists"]
+    if res["status"] != "ok" or not hs:
+        ctx.inconclusive.append("SimStore (exhaustive short histories): %s, %d histories" % (res["status"], len(hs)))
+        return
+    _replay_histories(ctx, hs, name)
+    ctx.coverage["short_histories_exhaustive"] = len(hs)
+
+
 def histories(ctx, n, name="hist"):
     """Model histories (tlc -simulate on SimStore) replayed against ONE real directory each, no re-materialisation
     between the steps: salts, time stamps and aux bytes are carried by the real files."""
@@ -81,6 +92,11 @@ def histories(ctx, n, name="hist"):
     if not hs:
         ctx.inconclusive.append("SimStore produced no histories (%s)" % res["status"])
         return
+    _replay_histories(ctx, hs, name)
+    ctx.sample({"history_first_steps": [{k: e[k] for k in ("op", "name", "pw", "adm", "def", "res")} for e in hs[0][:5]]})
+
+
+def _replay_histories(ctx, hs, name):
     exe = ctx.build("./cmd/storereplay")
     bf = os.path.join(ctx.scratch, name + ".ndjson")
     vlib.write_ndjson(bf, hs)
@@ -93,8 +109,7 @@ def histories(ctx, n, name="hist"):
     for v in (out["violations"] or []):
         ctx.violation(v["prop"], "history:" + v["key"], v["detail"], edge=v.get("edge"))
     c = ctx.coverage
-    c["histories_replayed"] = out["behaviours"]
-    c["history_steps"] = out["edges"]
+    c["histories_replayed"] = c.get("histories_replayed", 0) + out["behaviours"]
+    c["history_steps"] = c.get("history_steps", 0) + out["edges"]
     c["evaluations"] = c.get("evaluations", 0) + out["executions"]
     c["traces_validated_against_impl"] = c.get("traces_validated_against_impl", 0) + out["behaviours"]
-    ctx.sample({"history_first_steps": [{k: e[k] for k in ("op", "name", "pw", "adm", "def", "res")} for e in hs[0][:5]]})
